@@ -8,10 +8,10 @@ Model of the robots.txt gate that property C20 is anchored in:
 * `wpull/thirdparty/robotexclusionrulesparser.py`  the matcher: first rule set whose agent matches
                                      (non-default sets first), first matching rule wins, GYM2008 `*` / `$`
 
-Tokenising a robots.txt file into rule sets is the bundled parser's job and is
-*not* modelled: the harness passes the parsed rule sets (names lower-cased,
-paths already percent-decoded as the parser stores them) and the decoded
-target string; the matcher itself is modelled here.
+Tokenising a robots.txt file into rule sets is modelled separately in
+`Wpull/RobotsParse.lean` (theorems in `Proofs/C20Parse.lean`); for the matcher the
+harness passes the parsed rule sets (names lower-cased, paths already percent-decoded
+as the parser stores them) and the decoded target string.
 -/
 import Wpull.Py.Basic
 namespace Wpull.Robots
